@@ -302,6 +302,10 @@ func insertArrayValue(target []r.Element, idx int, insertItem r.Element) []r.Ele
 
 	if idx < 0 {
 		idx = len(target) + idx
+		// an index before the first item inserts at the front
+		if idx < 0 {
+			idx = 0
+		}
 	}
 	result = append(result, target[:idx]...)
 	result = append(result, insertItem)
